@@ -345,7 +345,7 @@ static void finish(void) {
 
 int main(void) {
   char line[256];
-  setvbuf(stdout, NULL, _IOFBF, 1 << 16);
+  setvbuf(stdout, NULL, _IOLBF, 1 << 16);  /* a crash must not lose the lines before it */
   sem_init(&ctl_sem, 0, 0);
   while (fgets(line, sizeof(line), stdin)) {
     char op[16] = "", k[8] = "";
